@@ -46,6 +46,10 @@ for d in sorted(glob.glob(os.path.join(SEEDED, "*"))):
     if not os.path.exists(mp):
         continue
     m = json.load(open(mp))
+    dj = os.path.join(d, "detect.json")
+    if os.path.exists(dj):
+        m["detected_by"] = {k: {"exit": v["exit"], "classes": v["violation_classes"]} for k, v in json.load(open(dj)).items()}
+        json.dump(m, open(mp, "w"), indent=1)
     det = m.get("detected_by", {})
     caught = [f"{k} ({', '.join(list(v['classes'])[:2])})" for k, v in det.items() if v["exit"] == 1]
     missed = [k for k, v in det.items() if v["exit"] == 0]
